@@ -30,6 +30,16 @@ class Prop(common.PropertyCheck):
             af = 0.0 if rng.random() < 0.2 else 10 ** rng.uniform(0, math.log10(5000))
             yield {'k': 'recover', 'm': rng.uniform(0.85, 1.25), 'b': rng.uniform(0, 7), 'af': af, 'ladder': lad,
                    'drop': rng.randrange(0, 4), 'blank': rng.random() < 0.7, 'mef_form': rng.choice(['float', 'int_array', 'int_list'])}
+        # corners of the stated domain: a blank bead with a tiny autofluorescence and the dimmest stained peaks missing; a blank bead, a large
+        # intercept and an autofluorescence close to the admissible maximum (the fifth-brightest bead only just above 3x the autofluorescence)
+        for _ in range(self.budget(400, 6000)):
+            lad = rng.randrange(len(LADDERS))
+            if rng.random() < 0.5:
+                yield {'k': 'recover', 'm': rng.uniform(0.85, 1.25), 'b': rng.uniform(0, 7), 'af': rng.uniform(1, 5), 'ladder': lad, 'drop': rng.randrange(0, 2),
+                       'drop_dim': rng.randrange(1, 3), 'blank': True, 'mef_form': 'float'}
+            else:
+                yield {'k': 'recover', 'm': rng.uniform(0.85, 1.25), 'b': rng.uniform(5.5, 7), 'af': 'max', 'af_frac': rng.uniform(0.8, 0.999), 'ladder': lad,
+                       'drop': rng.randrange(0, 3), 'blank': True, 'mef_form': 'float'}
         for _ in range(self.budget(2500, 40000)):
             yield {'k': 'struct', 'n': rng.randrange(3, 9), 'kind': rng.choice(['convex', 'convex', 'noisy', 'random', 'concave']), 'seed': rng.randrange(1 << 30)}
         for bad in ('two', 'one', 'len', 'len1_mef', 'len1_rfi', 'scalar_mef', 'scalar_rfi'):
@@ -63,7 +73,13 @@ class Prop(common.PropertyCheck):
                     mef = mef[1:]
                 if case['drop']:
                     mef = mef[:len(mef) - case['drop']]
+                if case.get('drop_dim'):
+                    # the dimmest stained peaks are missing (the blank stays)
+                    mef = np.concatenate([mef[:1], mef[1 + case['drop_dim']:]]) if case['blank'] else mef[case['drop_dim']:]
                 m, b, af = case['m'], case['b'], case['af']
+                if af == 'max':
+                    # as large as the envelope allows: the fifth-brightest bead is just above 3x the autofluorescence
+                    af = min(5000.0, float(np.sort(mef)[-5]) / 3.0 * case['af_frac']) if len(mef) >= 5 else 1.0
                 rfi = np.exp((np.log(mef + af) - b) / m) if af > 0 else np.exp((np.log(np.maximum(mef, 1e-300)) - b) / m)
                 ok = (mef + af > 0) & np.isfinite(rfi) & (rfi > 0)
                 if af == 0:
@@ -156,7 +172,7 @@ class Prop(common.PropertyCheck):
         if case['k'] == 'recover':
             self.bump('recovery-fits')
             if impl['maxdev'] > 0.05:
-                return 'fitted standard curve deviates %.1f%% from exp(b) rfi^m (m=%.3f b=%.3f autofluorescence=%.1f ladder %d)' % (
+                return 'fitted standard curve deviates %.1f%% from exp(b) rfi^m (m=%.3f b=%.3f autofluorescence=%s ladder %d)' % (
                     100 * impl['maxdev'], case['m'], case['b'], case['af'], case['ladder'])
         return None
 
@@ -182,7 +198,7 @@ class Prop(common.PropertyCheck):
         if impl.get('skip'):
             return None
         if case['k'] == 'recover':
-            return ('r', round(case['m'], 2), round(case['b'], 1), 0 if case['af'] == 0 else int(math.log10(case['af'])), case['ladder'], case['drop'], case['blank'])
+            return ('r', round(case['m'], 2), round(case['b'], 1), 'max' if case['af'] == 'max' else 0 if case['af'] == 0 else int(math.log10(case['af'])), case['ladder'], case['drop'], case.get('drop_dim', 0), case['blank'])
         if case['k'] == 'struct':
             return ('s', case['kind'], case['n'], case['seed'] % 1000)
         return ('bad', case['what'])
